@@ -75,6 +75,19 @@ theorem C08_lexer_api (d : Bytes) :
     (∀ (l : Lexer) (t : Token), l.peekToken = some t ↔ ∃ r, readToken l.data = .ok (t, r)) :=
   ⟨Lexer.run_eq d, Lexer.peekToken_eq⟩
 
+/-- `next_id` and the individual `read_*` primitives agree with `read_token`: the documented
+"zero overhead" loop (`next_id`, then the primitive that belongs to the id) returns the same
+tokens and the same terminal outcome as the `next_token` loop. -/
+theorem C08_lexer_primitives (d : Bytes) :
+    (Lexer.runIds d).1 = (lexAll d).1 ∧ (Lexer.runIds d).2.1 = (lexAll d).2.1 :=
+  Lexer.runIds_eq d
+
+/-- The documented minimal buffer (`usize::from(u16::MAX) + 4 = 65539`) fits every input:
+`read_token` can only say `Eof` on fewer than 65539 bytes.  So the hypothesis `Fits` of the
+streaming theorems holds for every byte string once `cap ≥ 65539`. -/
+theorem C08_fits_of_large (cap : Nat) (hcap : 65539 ≤ cap) (d : Bytes) : Fits cap d :=
+  fits_of_large cap hcap d
+
 /-- `Buffer_refines`: the concrete `BufferWindow` (memory of `cap` bytes, `start`, `end`,
 `prior_reads`) refines the abstract view "position, window contents, undelivered bytes".
 The invariant `Buf.Inv` = `start ≤ end ≤ |mem|` (`|mem| = cap` in builder mode) and
@@ -164,5 +177,31 @@ theorem C08_stream_with_faults (buffer data : Bytes) (sched : List Step) (hcap :
      (Reader.calls n (Reader.build buffer (Src.new data sched))).2.src.delivered +
       (Reader.calls n (Reader.build buffer (Src.new data sched))).2.src.rest.length = data.length) :=
   C20_bin_reader buffer data sched hcap hwf hfit n
+
+/-- **A buffer that is too small is an error.**  For a builder buffer of at least one byte and a
+fault-free schedule: if some token of the input (or a failing trailing token) does not fit
+(`¬ Fits`), the streamed run ends with `BufferFull`; the tokens returned before that are, in
+order, a prefix of the slice lexer's tokens — never a clean end, never a different token.
+(Capacity 0 is excluded for a reason: the code treats a zero-length buffer as slice mode and
+reports a clean end immediately; known finding `zero-capacity-buffer-drops-input`.) -/
+theorem C08_too_small_is_error (buffer data : Bytes) (sched : List Step) (hcap : 1 ≤ buffer.length)
+    (hwf : Src.WfSched sched) (hnf : Src.NoFaults sched) (hsmall : ¬ Fits buffer.length data) :
+    (Reader.streamAll (Reader.build buffer (Src.new data sched))).2.1 = .err .bufferFull ∧
+    (Reader.streamAll (Reader.build buffer (Src.new data sched))).1 <+: (lexAll data).1 := by
+  have h0 := rinv_build buffer data sched hcap hwf
+  have hrem : (Reader.build buffer (Src.new data sched)).remaining data = data := by
+    simp [Reader.remaining, Reader.build, Buf.build, Reader.position, Buf.position, Buf.consumedData]
+  have hlen := remaining_length h0
+  have := stream_small data (Reader.streamFuel (Reader.build buffer (Src.new data sched)))
+    (Reader.build buffer (Src.new data sched)) h0 hcap (by rw [hrem]; exact hsmall) hnf
+    (by rw [hlen]; simp [Reader.streamFuel])
+  rw [hrem] at this
+  exact ⟨this.1, this.2.1⟩
+
+/-- the hypothesis is satisfiable: a 6-byte token in a 5-byte buffer -/
+example : ¬ Fits 5 [0x0c, 0, 1, 0, 0, 0] := by
+  intro h
+  have := fits_head h 5 (by simp) (by rfl)
+  omega
 
 end Jomini.Props.C08
